@@ -4,14 +4,21 @@ from .. import core, gen, ref, hist, world as W
 from . import cu
 from .c01 import fix_disagreements
 
-MODULES = ['DsdVerif.Props.C03']
-GEN_FILES = []
+MODULES = ['DsdVerif.Props.C03', 'DsdVerif.Props.PyComplexS']
+GEN_FILES = ['PyComplexS', 'PyFuncs']
 THEOREM_NAMES = ['coherent_fresh', 'query_coherent', 'setTurns_coherent', 'setTurns_rotation', 'views_refine_spec', 'stale_setter_counterexample']
-THEOREMS = ['Dsd.C03.' + t for t in THEOREM_NAMES]
+# the methods of ComplexS as written in the source (Gen/PyComplexS.lean, regenerated on every run)
+PY_THEOREMS = ['pyQuery_spec', 'pyQuery_eq_model', 'pySetTurns_eq_model', 'pySetTurns_hasStrand', 'py_views_refine_spec',
+               'py_views_eq_model', 'py_views_from_init', 'py_rotate_pt_eq', 'pcoh_init', 'Rot.view_rotate_false']
+THEOREMS = ['Dsd.C03.' + t for t in THEOREM_NAMES] + ['Dsd.PyObj.' + t for t in PY_THEOREMS]
 ASSUMPTIONS = [
     'the ComplexS object is hand-modelled with its lazily filled caches and the turns setter (Model/CplxObject.lean); the specification '
     'object has no caches and computes every view from the current rotation',
     'views that hand out generators / iterators are compared after list() conversion',
+    'the methods of ComplexS (turns setter, the lazily filling private getters, 17 views) are ALSO transcribed statement by statement from the '
+    'working tree (translator/pymethod.py -> Gen/PyComplexS.lean: the object is the state of ExceptT Err (StateM Self), so that an exception keeps '
+    'the attribute assignments made before it); the reading of Python (self attributes as record fields, generators as lists, value semantics '
+    'for lists stored in attributes) is trusted and validated by the stream ComplexS-methods.source-derived',
 ]
 MANIFEST = {
     'text': 'Full for the model: views_refine_spec (after any sequence of turns assignments - any integer - interleaved with queries that '
@@ -21,7 +28,16 @@ MANIFEST = {
             'rotate^turns(canon) is the current sequence and structure), and stale_setter_counterexample (the setter that keeps the old '
             'tables violates this on a 3-op history: the defect repaired in /repo). The model object is tied to ComplexS by '
             'correspondence over complexes x op sequences; every view of the real object is also re-derived from its current sequence '
-            'and structure with reference algorithms after every step.',
+            'and structure with reference algorithms after every step. STATEMENT LEVEL, FROM THE SOURCE: translator/pymethod.py transcribes the '
+            'turns setter, __strand_table / __pair_table / __loop_index, size, rotate, rotate_pt, strand_table, pair_table, strand_length, '
+            'get_domain, get_paired_loc, get_loop_index, exterior_domains, enclosed_domains, is_connected, kernel_string and the attribute '
+            'initialisation of __init__ statement by statement from the working tree (Gen/PyComplexS.lean, regenerated on every run); '
+            'py_views_refine_spec proves that for EVERY sequence of turns assignments and queries the translated methods, run on the '
+            'translated object from a coherent state with at least one strand, answer exactly like the cache-free specification of the '
+            'current rotation (py_views_from_init: from what __init__ leaves), pyQuery_spec / pySetTurns_eq_model that each view / the '
+            'setter keeps the lazily filled attributes coherent - also when a view raises half way - and equals the model, so '
+            'views_refine_spec, setTurns_rotation are theorems about the code as written; a one-statement change of one of these '
+            'methods (a forgotten reset, a changed guard, another order) changes Gen/PyComplexS.lean and the proofs no longer elaborate.',
     'note': 'Trusted base as in DESIGN.md section 3; generators / iterators are compared after list() conversion.',
     'technique': 'Lean 4 refinement proof (cached object vs cache-free spec) by induction over op sequences; correspondence check; reference oracle',
 }
@@ -220,7 +236,28 @@ def run(res, proof):
             fix_disagreements(res, lines, impl, model)
     except core.DriverBroken as e:
         proof.problem('driver', str(e))
+    source_derived(res, proof, lines, impl)
     res.sample(lines[:10])
+
+
+def source_derived(res, proof, lines, impl):
+    """the methods of ComplexS as translated from the working tree (Gen/PyComplexS.lean) on the same op sequences: before every
+    query / assignment of a history the twin op is run on the translated object (its own state, created by the translated
+    `__init__` from the model's description at its first use) and must answer like the implementation"""
+    twin, want, back = [], [], []
+    for l, o in zip(lines, impl):
+        f = l.split('\t')
+        if f[0] in ('q', 'set.turns', 'peek') and not (f[0] == 'q' and f[2] == 'canon'):
+            twin.append('py' + l); want.append(o); back.append(len(twin) - 1)
+        twin.append(l); want.append(None)
+    try:
+        out = core.run_driver(twin)
+    except core.DriverBroken as e:
+        proof.problem('driver', 'source-derived object stream: ' + str(e))
+        return
+    tl = [twin[i] for i in back]
+    core.compare_streams(res, 'ComplexS-methods.source-derived', tl, [want[i] for i in back], [out[i] for i in back])
+    res.dist['source_derived_method_ops'] = len(back)
 
 
 SHARED = [  # (names, structure of A, structure of B): same strands, different pairing -> two different complexes
